@@ -161,8 +161,8 @@ BULK_RULE = ('one run = 2-24 bulk operations (memset, memcpy from application me
              'or straddling from the canary page into the region; faults: grant/deny refused, sandbox allocator null or straddling, host malloc null; the footprint is a byte-wise '
              'diff of both regions, the canary pages around them and the application arena, and in 1/6 of the runs the trap-MMU read/write set of the target region; '
              'expected outcome (must proceed / must abort / either) from the simulator\'s own region table; non-trivial = fault fired or probe hit; distinct = event-log hashes')
-BULK_WORLD = dict(world='bulk', variants=['plain', 'nogrant', 'asan'], quick=dict(count=120000, time_limit=90, variant_share={'plain': 0.6, 'nogrant': 0.2, 'asan': 0.2}),
-                  thorough=dict(count=4000000, time_limit=900, variant_share={'plain': 0.6, 'nogrant': 0.2, 'asan': 0.2}))
+BULK_WORLD = dict(world='bulk', variants=['plain', 'nogrant', 'asan', 'wide'], quick=dict(count=120000, time_limit=90, variant_share={'plain': 0.5, 'nogrant': 0.15, 'asan': 0.2, 'wide': 0.15}),
+                  thorough=dict(count=4000000, time_limit=900, variant_share={'plain': 0.5, 'nogrant': 0.15, 'asan': 0.2, 'wide': 0.15}))
 PROPS.update({
     'C10': dict(level='exploration', worlds=[BULK_WORLD, dict(TOCTOU_WORLD, quick=dict(TOCTOU_WORLD['quick'], count=4000))], rule=BULK_RULE,
                 components=dict(real_code=COMPONENTS_SIM['real_code'],
@@ -245,3 +245,6 @@ PROPS['C19']['expect_probes'] = PROPS['C19']['expect_probes'] + ['F9_unrepresent
 PROPS['C10']['expect_probes'] = PROPS['C10']['expect_probes'] + ['memcmp_count_read_from_sandbox_memory', 'F2_count_cell_rewritten_during_memcmp']
 PROPS['C04']['expect_probes'] = PROPS['C04']['expect_probes'] + ['pointer_cell_watched_during_store']
 PROPS['C14']['expect_probes'] = PROPS['C14']['expect_probes'] + ['registry_asked_about_last_byte_of_region', 'backend_reports_total_memory_as_mask']
+PROPS['C10']['expect_probes'] = PROPS['C10']['expect_probes'] + ['range_fits_in_application_width_only']
+PROPS['C19']['expect_probes'] = PROPS['C19']['expect_probes'] + ['F10_function_not_exported_resolves_to_null']
+PROPS['C15']['expect_probes'] = PROPS['C15']['expect_probes'] + ['backend_location_is_not_address_of_representation_0']
